@@ -54,6 +54,14 @@ func NewBarrier(count int, f func(msgTs uint64, b *Barrier), u func(vchannel str
 				current++
 			}
 		}
+		// a barrier closed while its last signal was being counted must not fire:
+		// the callbacks select between CloseChan and the event send, and with both
+		// ready Go picks at random
+		select {
+		case <-barrier.CloseChan:
+			return
+		default:
+		}
 		f(msgTs, barrier)
 	}()
 
